@@ -78,7 +78,9 @@ def run_case(case, work, rec):
     nonsq = m.grid_sizes[0][0] != m.grid_sizes[0][1] or any(b.shape[0] != b.shape[1] for lv in m.boxes for b in lv)
     n0 = dict(contracts.COUNTS)
     flists = [[names[0]], [names[-1], "grid_level"], ["grid_level"], ["all"],
-              rng.sample(names, min(len(names), 3))]
+              rng.sample(names, min(len(names), 3)), ["grid_level"] + list(reversed(names[:2]))]
+    if len(names) >= 2:
+        flists.append([names[-1], "grid_level", names[0]])
     if "asset" in case:
         flists = [[names[0]], [names[-1], "grid_level"], [names[2], names[1]]]
     for fl in flists:
